@@ -73,6 +73,15 @@ CHECKS = {
             "Leakage tolerance is absolute in ||H||_2 (256 eps n ||H|| ||Ms_k||); a stream is 'powered' when its effective gain exceeds 1e-10 of the largest; optimality of the stream count chosen by capacity/throughput metrics is not part of the property and not asserted.",
             "icontract postconditions on the real precoder methods under generated multi-round workloads",
             "DESIGN.md §5 C09"),
+    "C11": ("exploration",
+            "The harness supplies the raw channel matrix (and applies path loss itself), so an independent stream-by-stream oracle "
+            "sum |u^H H f|^2 decides calc_SINR / calc_JP_SINR (plain and ext-int), rescaling invariance, non-negativity, calc_Q / "
+            "calc_JP_Q / ext-int covariance (value, Hermitian, PSD), the IA-solver calc_SINR (three setter routes) against both the "
+            "channel object and the oracle, dB conversion and sum capacity (also calc_shannon_sum_capacity over 33 decades / 400 "
+            "streams); 1-3 rounds on the same channel object change path loss, noise and the matrix between evaluations.",
+            "Relative tolerance 256 eps n (1+SINR) (the library subtracts the own-stream covariance); K >= 2 with generic precoders so denominators are positive; the solver API has no ext-int input so solver-vs-ext-int is outside its domain.",
+            "independent first-principles oracle vs the real SINR/covariance methods over generated multi-round histories",
+            "DESIGN.md §5 C11"),
 }
 
 PENDING_REASON = "check not built yet in this session (design in DESIGN.md §5); will be claimed once its monitors run clean on the unchanged tree"
